@@ -615,6 +615,28 @@ Proof.
     apply do_mut_budget0. simpl. exact H.
 Qed.
 
+Lemma rext_reconcile s : rext s (reconcile s).
+Proof.
+  unfold reconcile.
+  destruct (p_snap (n_p s)); [| leaf]. destruct (log_first (p_log (n_p s))); [| leaf].
+  destruct (log_last (p_log (n_p s))); [| leaf].
+  match goal with |- rext s (if ?c then _ else _) => destruct c end; [apply do_mut_keep; exact I|].
+  match goal with |- rext s (if ?c then _ else _) => destruct c end; [| leaf].
+  apply rext_bind_pure; [apply pure_log_term|]. intros t _.
+  destruct (negb (t =? sn_term s0)); [apply do_mut_keep; exact I | leaf].
+Qed.
+
+Lemma reconcile_budget0 s : n_budget s = 0 -> pure (reconcile s).
+Proof.
+  intro H. unfold reconcile.
+  destruct (p_snap (n_p s)); simpl; auto. destruct (log_first (p_log (n_p s))); simpl; auto.
+  destruct (log_last (p_log (n_p s))); simpl; auto.
+  match goal with |- pure (if ?c then _ else _) => destruct c end; [apply do_mut_budget0; auto|].
+  match goal with |- pure (if ?c then _ else _) => destruct c end; simpl; auto.
+  apply pure_bind; [apply pure_log_term|]. intros t.
+  destruct (negb (t =? sn_term s0)); [apply do_mut_budget0; auto | simpl; auto].
+Qed.
+
 Lemma new_core_pext id cfg p :
   match new_core id cfg p with
   | Ret s' => pext p (n_p s') /\ n_id s' = id /\ n_cfg s' = cfg /\ n_role s' = Follower /\ n_msgs s' = []
@@ -623,15 +645,20 @@ Lemma new_core_pext id cfg p :
   end.
 Proof.
   unfold new_core.
-  set (s0 := set_conf (blank_node id cfg p) (init_latest_conf p)).
-  destruct (p_snap p) eqn:Es.
+  pose proof (rext_reconcile (blank_node id cfg p)) as Hr.
+  pose proof (reconcile_budget0 (blank_node id cfg p) eq_refl) as Hb0.
+  destruct (reconcile (blank_node id cfg p)) as [r | c | q]; simpl in *; auto.
+  destruct Hr as [Hrp _].
+  set (p1 := n_p r) in *.
+  set (s0 := set_conf (blank_node id cfg p1) (init_latest_conf p1)).
+  destruct (p_snap p1) eqn:Es.
   - pose proof (rext_commit_up_to s0 (sn_index s)) as H.
     pose proof (commit_up_to_budget0 s0 (sn_index s) eq_refl) as Hb.
     pose proof (commit_up_to_vol s0 (sn_index s)) as Hv.
     destruct (commit_up_to s0 (sn_index s)) as [s1 | c | q]; simpl in *; auto.
     destruct H as [Hp [Hi [Hc _]]]. destruct (Hv s1 eq_refl) as [Hm _].
-    unfold s0 in *. simpl in *. split; [exact Hp|]. repeat split; auto.
-  - simpl. split; [apply pext_refl|]. repeat split; auto.
+    unfold s0 in *. simpl in *. split; [eapply pext_trans; eauto|]. repeat split; auto.
+  - simpl. split; [exact Hrp|]. repeat split; auto.
 Qed.
 
 (* ---------------------------------------------------------------- every event, every outcome *)
